@@ -749,12 +749,10 @@ func canonicalKey(v *Verdict, n1 *ast.FileNode) {
 		k = "comment-lost:duplicate-import"
 	case strings.HasPrefix(k, "not-idempotent:whitespace") && strings.HasPrefix(v.Formatted, "\n"):
 		k = "not-idempotent:whitespace:leading-blank-line"
-	case strings.HasPrefix(k, "not-idempotent:whitespace-at-comment:block-multiline"), strings.HasPrefix(k, "not-idempotent:content-at-comment:block-multiline"):
-		k = "not-idempotent:whitespace:multiline-block-comment"
 	case strings.HasPrefix(k, "not-idempotent:content-at-comment"):
 		k = "not-idempotent:comment-restyled"
 	case strings.HasPrefix(k, "not-idempotent:whitespace-at-comment"):
-		k = "not-idempotent:whitespace:comment-spacing"
+		k = "not-idempotent:whitespace:at-comment"
 	}
 	v.Key = k
 }
@@ -976,40 +974,25 @@ func classifyNonIdempotent(c *Case, n *ast.FileNode, out1, out2 string) string {
 		o2, err := formatNode(m2)
 		return err == nil && o1 == o2
 	}
-	if s, changed := blankEmptyStatements(c.Source, n); changed {
-		if idem(s) {
-			return "not-idempotent:empty-statement"
-		}
-		// empty statements and comments may both be necessary causes
-		if m, err := parseSrc(c.Path, s); err == nil {
-			if s2, ch2 := blankComments(s, m, -1); ch2 && idem(s2) {
-				if sc, _ := blankComments(c.Source, n, -1); !idem(sc) {
-					return "not-idempotent:empty-statement"
-				}
-			}
-		}
-	}
 	ws := strings.NewReplacer(" ", "", "\t", "", "\n", "", "\r", "")
 	kind := "content"
 	if ws.Replace(out1) == ws.Replace(out2) {
 		kind = "whitespace"
 	}
-	if s, changed := blankComments(c.Source, n, -1); changed && idem(s) {
-		// which single comment is responsible?
-		cms, _ := collectComments(n)
-		for i := 0; i < len(cms) && i < 25; i++ {
-			if s1, ok := blankComments(c.Source, n, i); ok && idem(s1) {
-				style := "line"
-				if strings.HasPrefix(cms[i].Raw, "/*") {
-					style = "block"
-					if strings.Contains(cms[i].Raw, "\n") {
-						style = "block-multiline"
-					}
-				}
-				return "not-idempotent:" + kind + "-at-comment:" + style + ":" + cms[i].where()
+	se, hasEmpty := blankEmptyStatements(c.Source, n)
+	if hasEmpty && idem(se) {
+		return "not-idempotent:empty-statement"
+	}
+	if sc, hasCmt := blankComments(c.Source, n, -1); hasCmt && idem(sc) {
+		return "not-idempotent:" + kind + "-at-comment"
+	}
+	if hasEmpty {
+		// neither alone: both the empty statements and the comments are necessary causes
+		if m, err := parseSrc(c.Path, se); err == nil {
+			if sec, ok := blankComments(se, m, -1); ok && idem(sec) {
+				return "not-idempotent:empty-statement"
 			}
 		}
-		return "not-idempotent:" + kind + "-at-comment"
 	}
 	return "not-idempotent:" + kind
 }
